@@ -433,7 +433,11 @@ func harnesses(r *fw.Run) []fw.HarnessSpec {
 		n := c.ChooseFree(512)
 		off := c.ChooseFree(8)
 		pat := c.ChooseFree(3)
-		c.Case([]byte(fmt.Sprintf("addrbits/%d/%d/%d/%d", kind, n, off, pat)), true)
+		anyc := 0 // addr_var also with an anycast prefix of depth 1 / 30 in front of the length
+		if kind == 1 {
+			anyc = c.ChooseFree(3)
+		}
+		c.Case([]byte(fmt.Sprintf("addrbits/%d/%d/%d/%d/%d", kind, n, off, pat, anyc)), true)
 		c.Sample(map[string]any{"kind": []string{"addr_extern", "addr_var"}[kind], "len": n, "bit_offset": off, "pattern": pat})
 		c.Label("address kind %d of %d bits at bit offset %d pattern %d", kind, n, off, pat)
 		bs := tb.NewBitString(n)
@@ -459,6 +463,11 @@ func harnesses(r *fw.Run) []fw.HarnessSpec {
 				WorkchainId int32
 				Address     tb.BitString
 			}{AddrLen: tlb.Uint9(n), WorkchainId: -5, Address: bs}
+			if anyc > 0 {
+				d := []uint32{0, 1, 30}[anyc]
+				a.AddrVar.Anycast.Exists = true
+				a.AddrVar.Anycast.Value = tlb.Anycast{Depth: d, RewritePfx: uint32(0x2AAAAAAA) & (1<<d - 1)}
+			}
 		}
 		switch off {
 		case 0:
